@@ -215,7 +215,8 @@ for q in queries:
                 names[2] = None; jnames[1] = 5           # not strings: a writer renders them
             before = repr((names, jnames))
             it = rbql_engine.TableIterator([['1', '2', '3'], ['4', '5', '6']], names)
-            reg = rbql_engine.ListTableRegistry([rbql_engine.ListTableInfo('b', [['1', 'p'], ['4', 'r']], jnames)])
+            # a later join record WIDER than the list of join column names: whatever the engine does about the surplus column, the caller's list keeps its length
+            reg = rbql_engine.ListTableRegistry([rbql_engine.ListTableInfo('b', [['1', 'p'], ['4', 'r', 'surplus']], jnames)])
             w = rbql_csv.CSVWriter(io.StringIO(), False, None, ',', pol) if sink == 'csv' else rbql_engine.TableWriter([])
             err = None
             try:
@@ -244,7 +245,7 @@ const show = x => JSON.stringify(x, (k, v) => v === undefined ? '<undefined>' : 
     const w = sink == 'csv' ? new rbql_csv.CSVWriter(ws, false, 'utf-8', ',', pol) : new rbql.TableWriter([]);
     let err = null;
     try {
-      await rbql.query(q, new rbql.TableIterator([['1', '2', '3'], ['4', '5', '6']], names), w, [], new rbql.SingleTableRegistry([['1', 'p'], ['4', 'r']], jnames));
+      await rbql.query(q, new rbql.TableIterator([['1', '2', '3'], ['4', '5', '6']], names), w, [], new rbql.SingleTableRegistry([['1', 'p'], ['4', 'r', 'surplus']], jnames));
     } catch (e) { err = String(e && e.message).slice(0, 60); }
     out.push({query: q + ' [' + pol + ' -> ' + sink + ']', before: before, after: show([names, jnames]), err: err});
   }
